@@ -425,7 +425,22 @@ func replayInFreshProcess(path string) (*replayOut, error) {
 	_ = cmd.Run()
 	var out replayOut
 	if err := json.Unmarshal(stdout.Bytes(), &out); err != nil {
-		return nil, fmt.Errorf("replay of %s: %v %s", path, err, stderr.String())
+		se := stderr.String()
+		if strings.Contains(se, "fatal error:") || strings.Contains(se, "[signal SIG") {
+			// the code under test took the whole process down
+			why := "fatal runtime error"
+			for _, l := range strings.Split(se, "\n") {
+				if strings.HasPrefix(l, "fatal error:") || strings.HasPrefix(l, "[signal ") {
+					why = strings.TrimSpace(l)
+					if i := strings.Index(why, " addr="); i > 0 {
+						why = why[:i] + "]"
+					}
+					break
+				}
+			}
+			return &replayOut{Violated: true, Clause: "no-panic", Signature: "C09/no-panic: the server process dies: " + why, Expected: "a response", Observed: tail(se, 1500), LogHash: "process-death"}, nil
+		}
+		return nil, fmt.Errorf("replay of %s: %v %s", path, err, se)
 	}
 	return &out, nil
 }
